@@ -288,6 +288,10 @@ PLANS = {
                 gen=[G("alloc", 240, 8000, "TraceAlloc", "TraceAlloc.cfg"),
                      G("alloc", 60, 1000, "TraceSorterB", "TraceSorterB.cfg", drift=True),
                      G("alloc_readers", 40, 1200, "TraceAlloc", "TraceAlloc.cfg")]),
+    # not a listed property: the rest of the public surface (Api.tla), run with `bin/check X01`;
+    # its evidence goes to out/, it is not registered in MANIFEST.json
+    "X01": dict(level="other", explanation="Specification growth beyond the listed properties: codec names, defaults, finish vs into_inner, accessors, fused and cloned iterators, forwarding of merge functions (Api.tla).",
+                assumptions=TRUST, gen=[G("api", 60, 1500, "TraceApi", "TraceApi.cfg")]),
     "C18": dict(level="model_checking", assumptions=TRUST + ["independent decoder: sequential walk, codec crates, LEB128 framing parser"],
                 mc=[MC("MCWriter", "MCWriter_unsorted.cfg", workers=8)],
                 gen=[G("unsorted", 1200, 40000, "TraceLayout", "TraceLayout_C18.cfg"),
